@@ -148,11 +148,11 @@ def run_item(item):
                 for tag, other in (("A", "B"), ("B", "A")):
                     sub = parts[tag][0]
                     oth = parts[other][0]
-                    if not sub.states:
+                    mv = oth.missing_variables or None
+                    if not sub.states and not mv:
                         mods[tag] = None
                         continue
-                    mv = oth.missing_variables or None
-                    mods[tag] = drive.exec_py(drive.py_code(sub, scheme=SCH, missing_values=mv))
+                    mods[tag] = drive.exec_py(drive.py_code(sub, scheme=SCH if sub.states else None, missing_values=mv))
             except Exception as ex:
                 fail("submodel-codegen-raises", f"{type(ex).__name__}: {ex}"[:300])
                 continue
@@ -163,11 +163,19 @@ def run_item(item):
             if key.startswith("rich|") or item.get("tier") != "quick":
                 try:
                     for tag, other in (("A", "B"), ("B", "A")):
-                        if mods[tag] is not None:
+                        if mods[tag] is not None and parts[tag][0].states:
                             jmods[tag] = drive.exec_py(drive.py_code(parts[tag][0], scheme=SCH, missing_values=parts[other][0].missing_variables or None, backend="jax"))
                 except Exception as ex:
                     fail("submodel-codegen-raises-jax", f"{type(ex).__name__}: {ex}"[:300])
                     jmods = {}
+            rmods = {}
+            try:
+                for tag, other in (("A", "B"), ("B", "A")):
+                    if mods[tag] is not None:
+                        rmods[tag] = drive.exec_py(drive.py_code(parts[tag][0], scheme=SCH if parts[tag][0].states else None, missing_values=parts[other][0].missing_variables or None, remove_unused=True))
+            except Exception as ex:
+                fail("submodel-codegen-raises-remove-unused", f"{type(ex).__name__}: {ex}"[:300])
+                rmods = {}
             for pt in pts:
                 sF = numpy.zeros(len(full["state"]))
                 for n, i in full["state"].items():
@@ -221,6 +229,32 @@ def run_item(item):
                                         bad.setdefault("missing_values-wrong", (pt, f"part {other}.missing_values[{n}] = {float(out[i])!r}, full model value {value[n]!r}"))
                         except Exception as ex:
                             bad.setdefault("missing_values-raises", (pt, repr(ex)[:200]))
+                    if tag in rmods:
+                        rm = rmods[tag]
+                        fns = (["rhs"] + SCH if len(m["state"]) else []) + (["missing_values"] if "missing_values" in m else [])
+                        for fn in fns:
+                            try:
+                                with numpy.errstate(all="ignore"):
+                                    if fn in SCH:
+                                        a_, b_ = m[fn](s, pt["t"], 0.125, p, *extra), rm[fn](s, pt["t"], 0.125, p, *extra)
+                                    else:
+                                        a_, b_ = m[fn](pt["t"], s, p, *extra), rm[fn](pt["t"], s, p, *extra)
+                                res["evaluations"] += 1
+                                if len(a_) != len(b_) or not all(_eq(float(u_), float(v_)) for u_, v_ in zip(a_, b_)):
+                                    bad.setdefault(f"remove-unused-changes-{fn}", (pt, f"part {tag}: {fn} with remove_unused=True {list(map(float, b_))} != without {list(map(float, a_))}"))
+                            except Exception as ex:
+                                bad.setdefault(f"remove-unused-{fn}-raises", (pt, f"part {tag}: {ex!r}"[:200]))
+                    if not len(m["state"]):
+                        try:
+                            with numpy.errstate(all="ignore"):
+                                mon = m["monitor_values"](pt["t"], s, p, *extra)
+                            for n, i in m["monitor"].items():
+                                res["evaluations"] += 1
+                                if not _eq(float(mon[i]), value[n]):
+                                    bad.setdefault("monitor-differs", (pt, f"part {tag} (no states): monitor {n} = {float(mon[i])!r}, full model {value[n]!r}"))
+                        except Exception as ex:
+                            bad.setdefault("submodel-call-raises", (pt, f"part {tag} (no states): {ex!r}"[:200]))
+                        continue
                     try:
                         with numpy.errstate(all="ignore"):
                             r = m["rhs"](pt["t"], s, p, *extra)
